@@ -158,4 +158,102 @@ theorem attach_only_owned (P : Params) (h : Nat) (t : Tx) (db : DB) (id : Nat) (
     · rw [effect_untouched id A1 _ (fun op hop hk => tA1 ⟨op, hop, hk⟩)] at hnew
       exact absurd hnew hold
 
+
+/-! ### the wallet's status bookkeeping follows the walk (AttachBlock never skips in updater order) -/
+
+def tipId : List Block → Nat
+  | [] => 0
+  | b :: _ => b.id
+
+def tipHeight : List Block → Nat
+  | [] => 0
+  | b :: _ => b.height
+
+def stepWallet (P : Params) (s : List Block × Wallet) : Step → List Block × Wallet
+  | .push b => (b :: s.1, attachBlock P s.2 b)
+  | .pop => match s.1 with
+    | [] => s
+    | b :: c => (c, detachBlock P s.2 b)
+
+def walkWallet (P : Params) (steps : List Step) (s : List Block × Wallet) : List Block × Wallet :=
+  steps.foldl (stepWallet P) s
+
+/-- the walletUpdater's order: every attached block extends the current tip by one height; the
+    genesis block is never detached -/
+def UpdaterOrder : List Step → List Block → Prop
+  | [], _ => True
+  | .push b :: rest, [] => b.parent = 0 ∧ b.height = 0 ∧ UpdaterOrder rest [b]
+  | .push b :: rest, t :: c => b.parent = t.id ∧ b.height = t.height + 1 ∧ UpdaterOrder rest (b :: t :: c)
+  | .pop :: rest, _ :: t :: c => UpdaterOrder rest (t :: c)
+  | .pop :: _, [_] => False
+  | .pop :: _, [] => False
+
+def ChainLinked : List Block → Prop
+  | [] => True
+  | [b] => b.parent = 0 ∧ b.height = 0
+  | b :: t :: c => b.parent = t.id ∧ b.height = t.height + 1 ∧ ChainLinked (t :: c)
+
+/-- WorkHash/BestHash and the two heights all point at the tip of the wallet's chain -/
+def StatusOK (chain : List Block) (w : Wallet) : Prop :=
+  w.st.work = tipId chain ∧ w.st.best = tipId chain ∧
+  w.st.workHeight = tipHeight chain ∧ w.st.bestHeight = tipHeight chain
+
+/-- `updater_walk_status`: driven in the updater's order, `AttachBlock` never takes its silent
+    skip branch, the status always points at the tip, and the UTXO table evolves exactly as
+    `walk` (so `wallet_eq_rescan_partial` speaks about the real entry points). -/
+theorem updater_walk_status (P : Params) : ∀ (steps : List Step) (chain : List Block) (w : Wallet),
+    UpdaterOrder steps chain → ChainLinked chain → StatusOK chain w →
+    (walkWallet P steps (chain, w)).1 = (walk P steps (chain, w.db)).1 ∧
+    (walkWallet P steps (chain, w)).2.db = (walk P steps (chain, w.db)).2 ∧
+    StatusOK (walkWallet P steps (chain, w)).1 (walkWallet P steps (chain, w)).2 := by
+  intro steps
+  induction steps with
+  | nil => intro chain w _ _ hs; exact ⟨rfl, rfl, hs⟩
+  | cons st rest ih =>
+    intro chain w ho hc hs
+    obtain ⟨h1, h2, h3, h4⟩ := hs
+    cases st with
+    | push b =>
+      cases chain with
+      | nil =>
+        obtain ⟨hp, hh, hrest⟩ := ho
+        simp only [tipId, tipHeight] at h1 h2 h3 h4
+        have hw : attachBlock P w b = ⟨⟨b.height, b.id, b.height, b.id⟩, attach P b w.db⟩ := by
+          unfold attachBlock
+          simp [hp, h1, h4, hh]
+        simp only [walkWallet, walk, List.foldl_cons, stepWallet, stepW]
+        rw [hw]
+        have := ih [b] ⟨⟨b.height, b.id, b.height, b.id⟩, attach P b w.db⟩ hrest ⟨hp, hh⟩ ⟨rfl, rfl, rfl, rfl⟩
+        simpa [walkWallet, walk] using this
+      | cons t c =>
+        obtain ⟨hp, hh, hrest⟩ := ho
+        simp only [tipId, tipHeight] at h1 h2 h3 h4
+        have hw : attachBlock P w b = ⟨⟨b.height, b.id, b.height, b.id⟩, attach P b w.db⟩ := by
+          unfold attachBlock
+          have : (b.parent != w.st.work) = false := by simp [hp, h1]
+          simp only [this, Bool.false_eq_true, if_false]
+          have hge : b.height ≥ w.st.bestHeight := by omega
+          simp [hge]
+        simp only [walkWallet, walk, List.foldl_cons, stepWallet, stepW]
+        rw [hw]
+        have := ih (b :: t :: c) ⟨⟨b.height, b.id, b.height, b.id⟩, attach P b w.db⟩ hrest ⟨hp, hh, hc⟩ ⟨rfl, rfl, rfl, rfl⟩
+        simpa [walkWallet, walk] using this
+    | pop =>
+      match chain, ho, hc with
+      | b :: t :: c, ho, hc =>
+        obtain ⟨hp, hh, hc'⟩ := hc
+        simp only [tipId, tipHeight] at h1 h2 h3 h4
+        have hw : detachBlock P w b = ⟨⟨t.height, t.id, t.height, t.id⟩, detach P b w.db⟩ := by
+          unfold detachBlock
+          have e1 : b.height - 1 = t.height := by omega
+          simp only [e1, hp]
+          have hgt : w.st.workHeight > t.height := by omega
+          simp [hgt]
+        simp only [walkWallet, walk, List.foldl_cons, stepWallet, stepW]
+        rw [hw]
+        have := ih (t :: c) ⟨⟨t.height, t.id, t.height, t.id⟩, detach P b w.db⟩ ho hc' ⟨rfl, rfl, rfl, rfl⟩
+        simpa [walkWallet, walk] using this
+      | [], ho, _ => simp [UpdaterOrder] at ho
+      | [_], ho, _ => simp [UpdaterOrder] at ho
+
 end BytomModel.Props.C24
